@@ -134,7 +134,8 @@ def h_web_invalid(body: bytes, exists: bool, vcf: bool, nparams: int, post: bool
 
 # ------------------------------------------------------------------ what is stored is valid as what it is SERVED as
 SK_NAMES = ["g.ics", "g.vcf", "G.ICS", "g.ics.gz", "g.txt", "g"]
-SK_CTS = ["text/calendar", "text/vcard", "text/plain", "application/octet-stream", "text/calendar; charset=utf-8", "text/x-vcard"]
+SK_CTS = ["text/calendar", "text/vcard", "text/plain", "application/octet-stream", "text/calendar; charset=utf-8", "text/x-vcard",
+          "text/calendar; charset=utf-8; component=VEVENT", "text/vcard;charset=utf-8;x=1;y=2"]
 SK_BODIES = [b"!x", b"xa", b"v1"]
 
 
@@ -159,6 +160,12 @@ def body_served_kind(ni, ci, post):
                     r = mweb.call(app, "PUT", col + "/" + name, body=body, content_type=ct)
                 if r.status_class == "5xx":
                     return (False, "crashed")
+                # a body that is invalid for the media type of the request is refused, whatever parameters the
+                # media type carries and whatever the name
+                base = ct.split(";")[0].strip().lower()
+                if base in ("text/calendar", "text/vcard") and not SP.valid("x.ics", body) and r.status_class == "2xx":
+                    ctx.LAST_EXC = "%s %s%s as %r, body %r: acknowledged" % ("POST" if post else "PUT", col, "" if post else "/" + name, ct, body)
+                    return (False, "invalid-acknowledged")
                 if r.status_class != "2xx":
                     if Wm.digest(w) != before:
                         return (False, "refused-but-stored")
@@ -459,9 +466,10 @@ HARNESSES = [
                      "xandikos.web.StoreBasedCollection.create_member", "xandikos.webdav.DAVGetCTagProperty.get_value",
                      "xandikos.store.git.TreeGitStore._import_one"]),
     Harness("served_kind", h_served_kind, body_served_kind, classes=["refusals", "all-stored"], budget={"quick": 60, "thorough": 120},
-            describe="6 member names (.ics, .vcf, upper case, .ics.gz, .txt, none) x 6 request media types (own kind, the other "
-                     "kind, text/plain, octet-stream, with parameters) x bodies valid / invalid, PUT or POST, into the calendar and "
-                     "the address book: what is acknowledged and then served as text/calendar or text/vcard is valid as that kind; "
+            describe="6 member names (.ics, .vcf, upper case, .ics.gz, .txt, none) x 8 request media types (own kind, the other "
+                     "kind, text/plain, octet-stream, with one / two / three parameters) x bodies valid / invalid, PUT or POST, into the "
+                     "calendar and the address book: a body invalid for the request's media type is refused, and what is acknowledged "
+                     "and then served as text/calendar or text/vcard is valid as that kind; "
                      "a refusal stores nothing; exhaustive over the menus",
             encodes=["xandikos.store.git.GitStore.import_one", "xandikos.store.open_by_content_type", "xandikos.store.open_by_extension",
                      "xandikos.store.git.GitStore.iter_with_etag", "xandikos.web.StoreBasedCollection.create_member",
